@@ -53,6 +53,19 @@ def _emit(tag, doc):
     os.write(2, ("\n@@%s@@ %s\n" % (tag, json.dumps(doc, sort_keys=True))).encode())
 
 
+if not SYMBOLIC:
+    from vlib import state
+
+
+def fresh_state():
+    """put the repo's module / class level state back to what it was when the path started"""
+    if SYMBOLIC:
+        with NoTracing():
+            state.restore()
+    else:
+        state.restore()
+
+
 class ReplayAssumptionFailed(Exception):
     pass
 
